@@ -350,6 +350,14 @@ func findingClass(ci *caseInfo) string {
 			}
 		}
 	}
+	// the level that supplies the mapping declares the error with another type
+	if lt, ok := mappingLevelType(d, s, m, ci.ErrName); ok {
+		a, _ := json.Marshal(lt)
+		b, _ := json.Marshal(e.Def.T)
+		if string(a) != string(b) {
+			return "error-type-differs-between-levels"
+		}
+	}
 	if e.Resp.Body != nil && e.Resp.Body.Attr != "" {
 		return "error-body-attribute-ignored"
 	}
@@ -377,6 +385,29 @@ func findingClass(ci *caseInfo) string {
 		}
 	}
 	return ""
+}
+
+// mappingLevelType returns the type the error has at the level whose HTTP mapping the
+// endpoint uses (method, else service, else API).
+func mappingLevelType(d *dg.Design, s *dg.Service, m *dg.Method, name string) (*dg.Type, bool) {
+	if m.HTTP != nil && findResp(m.HTTP.Errors, name) != nil {
+		return nil, false // the method's own mapping: its own (effective) error
+	}
+	find := func(es []dg.ErrorDef) (*dg.Type, bool) {
+		for _, e := range es {
+			if e.Name == name {
+				return e.T, true
+			}
+		}
+		return nil, false
+	}
+	if findResp(s.HTTPErrs, name) != nil {
+		return find(s.Errors)
+	}
+	if findResp(d.HTTPErrs, name) != nil {
+		return find(d.Errors)
+	}
+	return nil, false
 }
 
 // oracle evaluates the property on one exchange.
